@@ -186,6 +186,15 @@ def check_nesting(ctx):
     if f"{at} is not Any" not in norm(nb.test):
         ctx.bad("C15.1", f, nb.test, "the nesting test calls issubclass without first excluding typing.Any (TypeError for `Dtype[Any, ...]`)")
     stmts = nb.body
+    # the clauses below read the merge as a sequence of plain assignments; a merge that arrives as one tuple assignment (the block extracted into a
+    # helper that returns several values) is not interpreted
+    for need_v in ("dims", "dim_str", at):
+        plain = [a for st_ in stmts for a in ast.walk(st_) if (isinstance(a, ast.Assign) and len(a.targets) == 1 and isinstance(a.targets[0], ast.Name) and a.targets[0].id == need_v)
+                 or (isinstance(a, ast.AugAssign) and isinstance(a.target, ast.Name) and a.target.id == need_v)]
+        tupled = [a for st_ in stmts for a in ast.walk(st_) if isinstance(a, ast.Assign) and isinstance(a.targets[0], (ast.Tuple, ast.List))
+                  and any(isinstance(e_, ast.Name) and e_.id == need_v for e_ in a.targets[0].elts)]
+        if tupled and not plain:
+            raise AnalysisError(f"C15.1: `{need_v}` of a nested annotation is re-bound by a tuple assignment (`{short(tupled[0], 60)}`); the merge is not read through it")
     idx = {}
     for i, st in enumerate(stmts):
         for a in ast.walk(st):
@@ -653,6 +662,14 @@ def check_scalar_ladder(ctx):
         single_return = False
     mem_calls = [c for c in ast.walk(last) if isinstance(c, ast.Call)]
     uses_prefix = any(isinstance(c.func, ast.Attribute) and c.func.attr == "startswith" and [norm(a) for a in c.args] == [kind] for c in mem_calls)
+    # ... asked of the dtype name itself: a name that was transformed first (`d.removeprefix("b").startswith(kind)`) is another question
+    # ('bool'.removeprefix('b') no longer starts with 'bool', 'bfloat16' starts with 'float')
+    transformed = [c for c in mem_calls if isinstance(c.func, ast.Attribute) and c.func.attr == "startswith" and [norm(a) for a in c.args] == [kind]
+                   and not isinstance(c.func.value, ast.Name)]
+    if transformed:
+        ctx.bad("C15.3", cs, transformed[0], f"`{short(transformed[0], 60)}`: the prefix test is applied to a transformed dtype name, not to the name: categories lose or gain Python scalar kinds "
+                "(`bool` no longer starts with 'bool' once a leading 'b' is removed, `bfloat16` then starts with 'float')", construct="prefix test on a transformed dtype name")
+        return
     substr = any((isinstance(c.func, ast.Attribute) and c.func.attr in ("search", "find", "count", "__contains__")) or norm(c.func) in ("re.search", "re.findall") for c in mem_calls) or \
         any(isinstance(x, ast.Compare) and isinstance(x.ops[0], ast.In) and norm(x.left) == kind for x in ast.walk(last))
     if not single_return:
